@@ -13,9 +13,12 @@ pub enum Form {
     Byte,
     AddSlice,
     AddByte,
+    /// update_by_iter with an iterator whose size hint is inexact (lower bound 0, upper bound twice the real length)
+    IterInexact,
 }
-pub const FORMS: [Form; 5] = [Form::Slice, Form::Iter, Form::Byte, Form::AddSlice, Form::AddByte];
+pub const FORMS: [Form; 6] = [Form::Slice, Form::Iter, Form::Byte, Form::AddSlice, Form::AddByte, Form::IterInexact];
 pub const FORMS3: [Form; 3] = [Form::Slice, Form::Iter, Form::Byte];
+pub const FORMS4: [Form; 4] = [Form::Slice, Form::Iter, Form::Byte, Form::IterInexact];
 
 pub fn feed(g: &mut Generator, data: &[u8], form: Form) {
     match form {
@@ -37,6 +40,10 @@ pub fn feed(g: &mut Generator, data: &[u8], form: Form) {
             for &c in data {
                 *g += c;
             }
+        }
+        Form::IterInexact => {
+            let doubled: Vec<(bool, u8)> = data.iter().flat_map(|&b| [(true, b), (false, !b)]).collect();
+            g.update_by_iter(doubled.iter().filter(|x| x.0).map(|x| x.1));
         }
     }
 }
